@@ -183,6 +183,8 @@ func runC12(c *Ctx) {
 								if len(s.Args) == 1 && s.Ellipsis.IsValid() {
 									if id, ok := ast.Unparen(s.Args[0]).(*ast.Ident); ok && hv != nil && info.Uses[id] == hv {
 										newHandles++
+									} else if k, ok := ev.rhsVal(stripAssert(s.Args[0])); ok && k == 1 {
+										newHandles++ // the list taken from the stack is passed on directly
 									}
 								}
 							case "AddPrecedence":
